@@ -16,7 +16,7 @@ from ..core import AnalysisError, ClassInfo, FuncInfo, Program, call_name, const
 from ..packs import ecc, ord_pack
 from ..pattern import body_is, bound, expr_is, find, has, has_expr
 from ..report import Ctx
-from ..sigtemplate import CHILDREN, AttrRoles, RecordTemplate
+from ..sigtemplate import CHILDREN, OPEN, AttrRoles, RecordTemplate, render_items
 from ..tables import OPERATOR_TABLE
 
 BASE = 'expressions.base_expressions'
@@ -230,8 +230,38 @@ class Unknown(Exception):
 
 
 def _interp(body: list[ast.stmt], atoms: dict[str, str], oracle) -> tuple:
-    """returns ('ret', value) | ('raise', text); value: ('atom', name) | ('const', v) | ('expr', text)"""
+    """returns ('ret', value) | ('raise', text); value: ('atom', name) | ('const', v) | ('expr', text).
+    ('expr', text) is a value the interpreter could not fold: text is its canonical spelling (atoms and locals substituted,
+    pow(a, b) written a ** b).  A caller may compare it with a spelling it knows; any other text leaves the verdict open."""
+    import copy
+
     env: dict[str, tuple] = {}
+    env_ast: dict[str, ast.expr] = {}
+
+    class Canon(ast.NodeTransformer):
+        def visit(self, node):
+            if isinstance(node, ast.expr):
+                t = unparse(node)
+                if t in atoms:
+                    return ast.Name(id=atoms[t], ctx=ast.Load())
+                if isinstance(node, ast.Name) and node.id in env:
+                    v = env[node.id]
+                    if v[0] == 'atom':
+                        return ast.Name(id=v[1], ctx=ast.Load())
+                    if v[0] == 'const' and v[1] is not None and v[1] == v[1] and abs(v[1]) != float('inf'):
+                        return ast.Constant(value=v[1])
+                    if node.id in env_ast:
+                        return copy.deepcopy(env_ast[node.id])
+            node = self.generic_visit(node)
+            if isinstance(node, ast.Call) and isinstance(node.func, ast.Name) and node.func.id == 'pow' and len(node.args) == 2 and not node.keywords:
+                return ast.BinOp(left=node.args[0], op=ast.Pow(), right=node.args[1])
+            return node
+
+    def canon(e: ast.expr) -> ast.expr:
+        return ast.fix_missing_locations(Canon().visit(copy.deepcopy(e)))
+
+    def is_test(e: ast.expr) -> bool:
+        return isinstance(e, ast.Compare) or (isinstance(e, ast.UnaryOp) and isinstance(e.op, ast.Not))
 
     def val(e: ast.expr):
         t = unparse(e)
@@ -239,22 +269,39 @@ def _interp(body: list[ast.stmt], atoms: dict[str, str], oracle) -> tuple:
             return ('atom', atoms[t])
         if isinstance(e, ast.Name) and e.id in env:
             return env[e.id]
-        if isinstance(e, ast.Constant) and isinstance(e.value, (int, float)):
+        if isinstance(e, ast.Constant) and isinstance(e.value, (int, float)):  # True / False are 1 / 0
             return ('const', float(e.value))
-        if isinstance(e, ast.UnaryOp) and isinstance(e.op, ast.USub) and isinstance(e.operand, ast.Constant):
+        if isinstance(e, ast.UnaryOp) and isinstance(e.op, ast.USub) and isinstance(e.operand, ast.Constant) and isinstance(e.operand.value, (int, float)):
             return ('const', -float(e.operand.value))
         if isinstance(e, ast.IfExp):
             return val(e.body) if test(e.test) else val(e.orelse)
-        if t in ('-np.inf', '-numpy.inf', '-math.inf'):
+        if t in ('-np.inf', '-numpy.inf', '-math.inf', "float('-inf')"):
             return ('const', float('-inf'))
-        # any other expression: keep its text with atoms substituted
-        txt = t
-        for k, a in atoms.items():
-            txt = txt.replace(k, a)
-        for k, v in env.items():
-            if v[0] == 'atom':
-                txt = re.sub(rf'\b{k}\b', v[1], txt)
-        return ('expr', txt)
+        if is_test(e):
+            # the value of a comparison / negation is True or False, numerically 1 or 0
+            return ('const', 1.0 if test(e) else 0.0)
+        if isinstance(e, ast.BoolOp):
+            # `a and b` / `a or b` is one of its operands
+            for v in e.values[:-1]:
+                if test(v) != isinstance(e.op, ast.And):
+                    return val(v)
+            return val(e.values[-1])
+        if isinstance(e, ast.Call) and isinstance(e.func, ast.Name) and e.func.id in ('int', 'float', 'bool') and len(e.args) == 1 and not e.keywords:
+            a = e.args[0]
+            if is_test(a) or e.func.id == 'bool':
+                return ('const', 1.0 if test(a) else 0.0)
+            v = val(a)
+            if v[0] == 'const' and v[1] is not None and (e.func.id == 'float' or (abs(v[1]) != float('inf') and v[1] == int(v[1]))):
+                return v
+            if v[0] == 'atom' and e.func.id == 'float':
+                return v  # float() of a value that is already a float
+        if isinstance(e, ast.Call) and isinstance(e.func, ast.Name) and e.func.id in ('min', 'max') and len(e.args) == 2 and not e.keywords:
+            a, b = val(e.args[0]), val(e.args[1])
+            if a[0] == 'atom' and b[0] == 'atom':
+                # min(a, b) is a unless b < a; max(a, b) is a unless b > a
+                return b if oracle(b, 'Lt' if e.func.id == 'min' else 'Gt', a, t) else a
+        # any other expression: its canonical text
+        return ('expr', unparse(canon(e)))
 
     def test(e: ast.expr) -> bool:
         if isinstance(e, ast.Compare) and len(e.ops) == 1:
@@ -264,6 +311,12 @@ def _interp(body: list[ast.stmt], atoms: dict[str, str], oracle) -> tuple:
             return all(vs) if isinstance(e.op, ast.And) else any(vs)
         if isinstance(e, ast.UnaryOp) and isinstance(e.op, ast.Not):
             return not test(e.operand)
+        # truth of a number: it is not zero
+        v = val(e)
+        if v[0] == 'const' and v[1] is not None:
+            return v[1] != 0.0
+        if v[0] == 'atom':
+            return oracle(v, 'NotEq', ('const', 0.0), unparse(e))
         return oracle(None, 'truth', None, unparse(e))
 
     def run(stmts):
@@ -271,7 +324,10 @@ def _interp(body: list[ast.stmt], atoms: dict[str, str], oracle) -> tuple:
             if isinstance(st, ast.Expr) and isinstance(st.value, ast.Constant):
                 continue
             if isinstance(st, ast.Assign) and len(st.targets) == 1 and isinstance(st.targets[0], ast.Name):
-                env[st.targets[0].id] = val(st.value)
+                v_ = val(st.value)
+                a_ = canon(st.value)
+                env[st.targets[0].id] = v_
+                env_ast[st.targets[0].id] = a_
                 continue
             if isinstance(st, ast.If):
                 r = run(st.body) if test(st.test) else run(st.orelse)
@@ -328,51 +384,86 @@ def evaluator_rules(ctx: Ctx) -> None:
         ctx.need(f is not None, f'{cname}.get_value')
         return f
 
+    def returned(f: FuncInfo) -> ast.expr | None:
+        """the value of a body that is assignments of locals followed by one return, the locals resolved"""
+        b = f.body
+        if not b or not isinstance(b[-1], ast.Return) or b[-1].value is None:
+            return None
+        if not all(isinstance(st, ast.Assign) and len(st.targets) == 1 and isinstance(st.targets[0], ast.Name) for st in b[:-1]):
+            return None
+        return inline_locals(f.node, b[-1].value)
+
     for cname, op in ARITH.items():
         f = gv(cname)
-        b = f.body
-        ok = len(b) == 1 and isinstance(b[0], ast.Return) and isinstance(b[0].value, ast.BinOp) and isinstance(b[0].value.op, op) \
-            and unparse(b[0].value.left) == 'self.left.get_value()' and unparse(b[0].value.right) == 'self.right.get_value()'
+        v = returned(f)
+        sides = (unparse(v.left), unparse(v.right)) if isinstance(v, ast.BinOp) else None
         # one operation on the values of the two operands: the operator and the order of the operands are then decided
-        plain = len(b) == 1 and isinstance(b[0], ast.Return) and isinstance(b[0].value, ast.BinOp) and {unparse(b[0].value.left), unparse(b[0].value.right)} == {'self.left.get_value()', 'self.right.get_value()'}
+        plain = sides is not None and set(sides) == {'self.left.get_value()', 'self.right.get_value()'}
+        ok = plain and isinstance(v.op, op) and (sides == ('self.left.get_value()', 'self.right.get_value()') or op in (ast.Add, ast.Mult))  # a + b is b + a
         ctx.add(R, f'{cname}.get_value', ok if (ok or plain) else None, f, f'{cname} evaluates left {op.__name__} right' if ok else
-                (f'{cname}.get_value returns {unparse(b[-1])[:80]}, which is not left {op.__name__} right' if plain else f'{cname}.get_value is not in the expected form (one operation on the values of the two operands)'), unparse(b[-1]), positive=plain and not ok)
+                (f'{cname}.get_value returns {unparse(v)[:80]}, which is not left {op.__name__} right' if plain else f'{cname}.get_value is not in the expected form (one operation on the values of the two operands)'),
+                unparse(f.body[-1]), positive=plain and not ok)
+    def settle(construct: str, f: FuncInfo, name: str, bad: list[str], open_: list[str], okmsg: str) -> None:
+        """bad: cases in which the interpreter obtained a definite value that is not the one of the table (a contradiction);
+        open_: cases whose value the interpreter could not fold (nothing is known about them)"""
+        if bad:
+            ctx.add(R, construct, False, f, f'{name}: ' + '; '.join(bad), ';'.join(bad))
+        elif open_:
+            ctx.add(R, construct, None, f, f'{name}.get_value is not in a form the interpreter folds to a value: ' + '; '.join(open_)[:300], ';'.join(open_))
+        else:
+            ctx.add(R, construct, True, f, okmsg, '')
+
+    def judge_const(r: tuple, want: float) -> str:
+        if r[0] == 'raise':
+            return 'bad'
+        if r[1][0] == 'expr':
+            return 'open'
+        return 'ok' if r[1] == ('const', want) else 'bad'
+
+    def show(r: tuple) -> str:
+        return f'raise {r[1]}' if r[0] == 'raise' else str(r[1][1])
+
     for cname, truth in COMPARE.items():
         f = gv(cname)
-        bad = []
-        try:
-            for order in ('lt', 'eq', 'gt'):
+        bad, open_ = [], []
+        for order in ('lt', 'eq', 'gt'):
+            try:
                 r = _interp(f.body, LR, _order_oracle(order))
-                want = 1.0 if truth(order) else 0.0
-                if not (r[0] == 'ret' and r[1][0] == 'const' and r[1][1] == want):
-                    bad.append(f'left {order} right -> {r[1][1] if r[0] == "ret" else r}')
-        except Unknown as e:
-            raise AnalysisError(f'{R}: {cname}.get_value: idiom not recognised: {e}')
-        ctx.add(R, f'{cname}.get_value', not bad, f, f'truth table of {cname} over {{<,=,>}} is correct' if not bad else f'{cname}: ' + '; '.join(bad), ';'.join(bad))
+            except Unknown as e:
+                open_.append(f'left {order} right: {e}')
+                continue
+            j = judge_const(r, 1.0 if truth(order) else 0.0)
+            if j != 'ok':
+                (bad if j == 'bad' else open_).append(f'left {order} right -> {show(r)}')
+        settle(f'{cname}.get_value', f, cname, bad, open_, f'truth table of {cname} over {{<,=,>}} is correct')
     for cname, pick in (('bioMin', {'lt': {'L'}, 'eq': {'L', 'R'}, 'gt': {'R'}}), ('bioMax', {'lt': {'R'}, 'eq': {'L', 'R'}, 'gt': {'L'}})):
         f = gv(cname)
-        bad = []
-        try:
-            for order in ('lt', 'eq', 'gt'):
+        bad, open_ = [], []
+        for order in ('lt', 'eq', 'gt'):
+            try:
                 r = _interp(f.body, LR, _order_oracle(order))
-                if not (r[0] == 'ret' and r[1][0] == 'atom' and r[1][1] in pick[order]):
-                    bad.append(f'left {order} right -> {r[1]}')
-        except Unknown as e:
-            raise AnalysisError(f'{R}: {cname}.get_value: idiom not recognised: {e}')
-        ctx.add(R, f'{cname}.get_value', not bad, f, f'{cname} returns the right operand in all three orderings' if not bad else f'{cname}: ' + '; '.join(bad), ';'.join(bad))
+            except Unknown as e:
+                open_.append(f'left {order} right: {e}')
+                continue
+            if r[0] == 'ret' and r[1][0] == 'atom' and r[1][1] in pick[order]:
+                continue
+            (open_ if r[0] == 'ret' and r[1][0] == 'expr' else bad).append(f'left {order} right -> {show(r)}')
+        settle(f'{cname}.get_value', f, cname, bad, open_, f'{cname} returns the right operand in all three orderings')
     for cname, fn in (('And', lambda l, r: l and r), ('Or', lambda l, r: l or r)):
         f = gv(cname)
-        bad = []
-        try:
-            for lz in (True, False):
-                for rz in (True, False):
+        bad, open_ = [], []
+        for lz in (True, False):
+            for rz in (True, False):
+                label = f'left {"=0" if lz else "!=0"}, right {"=0" if rz else "!=0"}'
+                try:
                     r = _interp(f.body, LR, _zero_oracle({'L': lz, 'R': rz}))
-                    want = 1.0 if fn(not lz, not rz) else 0.0
-                    if not (r[0] == 'ret' and r[1][0] == 'const' and r[1][1] == want):
-                        bad.append(f'left {"=0" if lz else "!=0"}, right {"=0" if rz else "!=0"} -> {r[1]}')
-        except Unknown as e:
-            raise AnalysisError(f'{R}: {cname}.get_value: idiom not recognised: {e}')
-        ctx.add(R, f'{cname}.get_value', not bad, f, f'truth table of {cname} over {{0, non-zero}}^2 is correct' if not bad else f'{cname}: ' + '; '.join(bad), ';'.join(bad))
+                except Unknown as e:
+                    open_.append(f'{label}: {e}')
+                    continue
+                j = judge_const(r, 1.0 if fn(not lz, not rz) else 0.0)
+                if j != 'ok':
+                    (bad if j == 'bad' else open_).append(f'{label} -> {show(r)}')
+        settle(f'{cname}.get_value', f, cname, bad, open_, f'truth table of {cname} over {{0, non-zero}}^2 is correct')
     # unary
     f = gv('UnaryMinus')
     b = f.body
@@ -380,59 +471,74 @@ def evaluator_rules(ctx: Ctx) -> None:
     ctx.add(R, 'UnaryMinus.get_value', ok, f, 'UnaryMinus negates its child' if ok else f'UnaryMinus.get_value: {unparse(b[-1])}', unparse(b[-1]))
     for cname, fn in NUMPY_FUN.items():
         f = gv(cname)
-        b = f.body
-        ok = len(b) == 1 and unparse(b[0]) in (f'return np.{fn}(self.child.get_value())', f'return numpy.{fn}(self.child.get_value())', f'return math.{fn}(self.child.get_value())')
-        m_ = re.fullmatch(r'return (?:np|numpy|math)\.(\w+)\(self\.child\.get_value\(\)\)', unparse(b[0])) if len(b) == 1 else None
+        v = returned(f)
+        m_ = re.fullmatch(r'(?:np|numpy|math)\.(\w+)\(self\.child\.get_value\(\)\)', unparse(v)) if v is not None else None
+        ok = m_ is not None and m_.group(1) == fn
         other = m_ is not None and m_.group(1) != fn
         ctx.add(R, f'{cname}.get_value', ok if (ok or other) else None, f, f'{cname} applies np.{fn} to its child' if ok else
-                (f'{cname}.get_value applies {m_.group(1)} to its child, not {fn}' if other else f'{cname}.get_value is not in the expected form (np.{fn} of the value of the child)'), unparse(b[-1]), positive=other)
+                (f'{cname}.get_value applies {m_.group(1)} to its child, not {fn}' if other else f'{cname}.get_value is not in the expected form (np.{fn} of the value of the child)'), unparse(f.body[-1]), positive=other)
     f = gv('logzero')
     C = {'self.child.get_value()': 'C'}
-    bad = []
-    try:
-        for z in (True, False):
+    LOGS = ('np.log(C)', 'numpy.log(C)', 'math.log(C)')
+    bad, open_ = [], []
+    for z in (True, False):
+        label = 'child = 0' if z else 'child != 0'
+        try:
             r = _interp(f.body, C, _zero_oracle({'C': z}))
-            if z and not (r[0] == 'ret' and r[1][0] == 'const' and r[1][1] == 0.0):
-                bad.append(f'child = 0 -> {r[1]}')
-            if not z and not (r[0] == 'ret' and r[1] == ('expr', 'np.log(C)')):
-                bad.append(f'child != 0 -> {r[1]}')
-    except Unknown as e:
-        raise AnalysisError(f'{R}: logzero.get_value: idiom not recognised: {e}')
-    ctx.add(R, 'logzero.get_value', not bad, f, 'logzero is 0 at 0 and log elsewhere' if not bad else 'logzero: ' + '; '.join(bad), ';'.join(bad))
+        except Unknown as e:
+            open_.append(f'{label}: {e}')
+            continue
+        if r[0] == 'raise':
+            bad.append(f'{label} -> {show(r)}')
+        elif z:
+            # 0 at 0: the constant 0, or the child itself (which is 0 there); the logarithm of the child is not
+            if r[1] in (('const', 0.0), ('atom', 'C')):
+                continue
+            (bad if r[1][0] != 'expr' or r[1][1] in LOGS else open_).append(f'{label} -> {show(r)}')
+        else:
+            if r[1][0] == 'expr' and r[1][1] in LOGS:
+                continue
+            other_fn = r[1][0] == 'expr' and re.fullmatch(r'(?:np|numpy|math)\.\w+\(C\)', r[1][1]) is not None
+            (bad if r[1][0] != 'expr' or other_fn else open_).append(f'{label} -> {show(r)}')
+    settle('logzero.get_value', f, 'logzero', bad, open_, 'logzero is 0 at 0 and log elsewhere')
     # PowerConstant over sign x integer exponent
     f = gv('PowerConstant')
 
     def pc_oracle(sign, integer):
         def o(a, op, b, text):
             t = text.replace(' ', '')
-            if t == 'self.integer_exponentisnotNone':
+            if t in ('self.integer_exponentisnotNone', 'Noneisnotself.integer_exponent'):
                 return integer
-            if t == 'self.integer_exponentisNone':
+            if t in ('self.integer_exponentisNone', 'Noneisself.integer_exponent'):
                 return not integer
+            if a is not None and a[0] == 'const' and b[0] == 'atom':
+                a, b, op = b, a, {'Lt': 'Gt', 'LtE': 'GtE', 'Gt': 'Lt', 'GtE': 'LtE'}.get(op, op)
             if a is not None and a[0] == 'atom' and b[0] == 'const' and b[1] == 0.0:
                 return {'Eq': sign == 0, 'NotEq': sign != 0, 'Lt': sign < 0, 'LtE': sign <= 0, 'Gt': sign > 0, 'GtE': sign >= 0}[op]
             raise Unknown(text)
 
         return o
 
-    bad = []
-    try:
-        for sign in (-1, 0, 1):
-            for integer in (True, False):
+    bad, open_ = [], []
+    for sign in (-1, 0, 1):
+        for integer in (True, False):
+            label = f'child sign {sign}, integer exponent {integer}'
+            try:
                 r = _interp(f.body, C, pc_oracle(sign, integer))
-                if sign == 0:
-                    good = r[0] == 'ret' and r[1][0] == 'const' and r[1][1] == 0.0
-                elif sign > 0:
-                    good = r[0] == 'ret' and r[1] in (('expr', 'C ** self.exponent'),)
-                elif integer:
-                    good = r[0] == 'ret' and r[1] in (('expr', 'C ** self.integer_exponent'), ('expr', 'C ** self.exponent'))
-                else:
-                    good = r[0] == 'raise' and 'BiogemeError' in r[1]
-                if not good:
-                    bad.append(f'child sign {sign}, integer exponent {integer} -> {r}')
-    except Unknown as e:
-        raise AnalysisError(f'{R}: PowerConstant.get_value: idiom not recognised: {e}')
-    ctx.add(R, 'PowerConstant.get_value', not bad, f, 'PowerConstant: 0 -> 0, v>0 -> v**e, v<0 with integer e -> v**e, otherwise BiogemeError' if not bad else 'PowerConstant: ' + '; '.join(bad), ';'.join(bad))
+            except Unknown as e:
+                open_.append(f'{label}: {e}')
+                continue
+            powers = ('C ** self.exponent',) + (('C ** self.integer_exponent',) if integer else ())
+            if sign == 0:
+                j = 'ok' if r == ('ret', ('const', 0.0)) else 'open' if r[0] == 'ret' and r[1][0] == 'expr' else 'bad'
+            elif sign > 0 or integer:
+                j = 'ok' if r[0] == 'ret' and r[1][0] == 'expr' and r[1][1] in powers else 'open' if r[0] == 'ret' and r[1][0] == 'expr' else 'bad'
+            else:
+                # a negative number to a non-integer power has no real value: the evaluator refuses
+                j = ('ok' if 'BiogemeError' in r[1] else 'open') if r[0] == 'raise' else 'open' if r[1][0] == 'expr' and r[1][1] not in powers else 'bad'
+            if j != 'ok':
+                (bad if j == 'bad' else open_).append(f'{label} -> {show(r)}')
+    settle('PowerConstant.get_value', f, 'PowerConstant', bad, open_, 'PowerConstant: 0 -> 0, v>0 -> v**e, v<0 with integer e -> v**e, otherwise BiogemeError')
     # n-ary
     f = gv('bioMultSum')
     loops = [n for n in f.body if isinstance(n, ast.For)]
@@ -526,33 +632,169 @@ def _loglogit_value(ctx: Ctx) -> None:
         ctx.add(R, 'LogLogit.get_value:chosen-availability', None, f, 'the body of LogLogit.get_value is not in the expected form (choice, availability test, shifted sum over util.items(), log)', 'av[choice]')
         ctx.add(R, 'LogLogit.get_value:denominator', None, f, 'the body of LogLogit.get_value is not in the expected form', 'denominator')
         return
-    ok_un = expr_is(b['__T'][1], f'{AV}[_C].get_value() == 0.0', b) is not None
+    roles = {b['_C']: 'the chosen alternative', b['_I']: 'the alternative of the current term'}
+
+    def guard(node: ast.expr, index: str, want: str) -> tuple[bool | None, str]:
+        """the test `node` is `availability of alternative <index> is <want>` (zero / nonzero), in any spelling of a test against 0.
+        False only for a named other test: inverted, availability of another alternative, utility instead of availability"""
+        zt = _zero_test(node)
+        if zt is None:
+            return None, 'is not a test of a value against 0'
+        subj, pol = zt
+        if isinstance(subj, ast.Name):
+            subj = inline_locals(f.node, subj)
+        if not (isinstance(subj, ast.Call) and isinstance(subj.func, ast.Attribute) and subj.func.attr == 'get_value' and not subj.args and not subj.keywords
+                and isinstance(subj.func.value, ast.Subscript)):
+            return None, 'does not test the value of an entry of a dictionary'
+        table, idx = unparse(inline_locals(f.node, subj.func.value.value)), subj.func.value.slice
+        same = unparse(inline_locals(f.node, idx)) == unparse(inline_locals(f.node, ast.Name(id=index, ctx=ast.Load())))
+        if table == AV and same:
+            return (True, '') if pol == want else (False, f'is true when the availability of {roles[index]} is {"not " if want == "zero" else ""}0: the comparison is inverted')
+        if table == U and same:
+            return False, f'reads the utility of {roles[index]}, not its availability'
+        if table == AV and (isinstance(idx, ast.Constant) or (isinstance(idx, ast.Name) and idx.id in roles and idx.id != index)):
+            return False, f'reads the availability of {roles[idx.id] if isinstance(idx, ast.Name) else "alternative " + unparse(idx)}, not the one of {roles[index]}'
+        return None, 'does not read the availability in a form the rule follows'
+
+    ok_un, why = guard(b['__T'][1], b['_C'], 'zero')
     ctx.add(R, 'LogLogit.get_value:chosen-availability', ok_un, f,
-            'zero probability is returned iff av[choice] == 0' if ok_un else f'the test before the early return is {bound(b, "__T")}, not the availability of the chosen alternative being 0',
-            bound(b, '__T'), positive=True)
-    ok_g = expr_is(b['__G'][1], f'{AV}[_I].get_value() != 0.0', b) is not None
+            'zero probability is returned iff av[choice] == 0' if ok_un else f'the test before the early return, {bound(b, "__T")}, {why}',
+            bound(b, '__T'), positive=ok_un is False)
+    ok_g, why = guard(b['__G'][1], b['_I'], 'nonzero')
     ok_t = expr_is(b['__TERM'][1], 'np.exp(_V.get_value() - _VC)', b) is not None
     ok_r = expr_is(b['__RET'][1], '-np.log(_D)', b) is not None
-    ok = ok_g and ok_t and ok_r
+    # named contradictions of the formula: the shift has the other sign, the logarithm is not negated
+    inv_t = expr_is(b['__TERM'][1], 'np.exp(_VC - _V.get_value())', b) is not None
+    inv_r = expr_is(b['__RET'][1], 'np.log(_D)', b) is not None
     det = f'if {bound(b, "__G")}: += {bound(b, "__TERM")}; return {bound(b, "__RET")}'
-    ctx.add(R, 'LogLogit.get_value:denominator', ok, f,
-            'log P = -log(sum over available i of exp(V_i - V_chosen)), each term guarded by av of the same key' if ok else
-            f'LogLogit.get_value: {det[:160]} is not -log(sum over i with av[i] != 0 of exp(V_i - V_chosen))', det, positive=True)
+    if ok_g and ok_t and ok_r:
+        ctx.add(R, 'LogLogit.get_value:denominator', True, f, 'log P = -log(sum over available i of exp(V_i - V_chosen)), each term guarded by av of the same key', det)
+    elif ok_g is False or inv_t or inv_r:
+        what = f'the guard {bound(b, "__G")} {why}' if ok_g is False else f'the term is {bound(b, "__TERM")}, the exponential of V_chosen - V_i' if inv_t else f'{bound(b, "__RET")} is +log of the sum'
+        ctx.add(R, 'LogLogit.get_value:denominator', False, f, f'LogLogit.get_value: {what}; the formula is -log(sum over i with av[i] != 0 of exp(V_i - V_chosen))', det, positive=True)
+    else:
+        ctx.add(R, 'LogLogit.get_value:denominator', None, f,
+                f'LogLogit.get_value: {det[:160]} is not in a form the rule compares with -log(sum over i with av[i] != 0 of exp(V_i - V_chosen))' + (f' (the guard {why})' if not ok_g else ''), det)
+
+
+def _zero_test(e: ast.expr) -> tuple[ast.expr, str] | None:
+    """(x, 'zero' | 'nonzero') when e tests the number x against 0: `x == 0`, `0 == x`, `x != 0.0`, `not x`, `x` (the truth of a number
+    is `x != 0`), `not (x == 0)`, ...; None for any other test"""
+    def is0(n):
+        return isinstance(n, ast.Constant) and isinstance(n.value, (int, float)) and not isinstance(n.value, bool) and n.value == 0
+
+    if isinstance(e, ast.Compare):
+        if len(e.ops) != 1 or not isinstance(e.ops[0], (ast.Eq, ast.NotEq)):
+            return None
+        l, r = e.left, e.comparators[0]
+        subj = l if is0(r) else r if is0(l) else None
+        if subj is None:
+            return None
+        return subj, 'zero' if isinstance(e.ops[0], ast.Eq) else 'nonzero'
+    if isinstance(e, ast.UnaryOp) and isinstance(e.op, ast.Not):
+        inner = _zero_test(e.operand)
+        return None if inner is None else (inner[0], 'zero' if inner[1] == 'nonzero' else 'nonzero')
+    if isinstance(e, (ast.BoolOp, ast.IfExp)):
+        return None
+    if isinstance(e, ast.Call) and isinstance(e.func, ast.Name) and e.func.id == 'bool' and len(e.args) == 1 and not e.keywords:
+        return _zero_test(e.args[0])
+    return e, 'nonzero'
 
 
 # --------------------------------------------------------------------------
 
 
+def _tuple_fields(prog: Program, c: ClassInfo) -> dict[str, list[str]]:
+    """'@k' -> field names, for the constructor parameters annotated as a collection of a NamedTuple class of the package"""
+    out: dict[str, list[str]] = {}
+    init = c.resolve('__init__')
+    if init is None:
+        return out
+    for k, p_ in enumerate(init.node.args.args[1:]):
+        if p_.annotation is None:
+            continue
+        for n in ast.walk(p_.annotation):
+            if isinstance(n, ast.Name):
+                cands = [k_ for k_ in prog.all_classes() if k_.name == n.id and k_.fields and 'NamedTuple' in k_.external_bases()]
+                if len(cands) == 1:
+                    out[f'@{k}'] = [f_[0] for f_ in cands[0].fields]
+    return out
+
+
+_FIELD = re.compile(r'\{(CLS|ID|LEN|IDX|VAL|FMT)(?::([^{}]*(?:\{[^{}]*\}[^{}]*)*))?\}')
+
+
+def _record_verdict(got: str, want: str, attr_roles: dict[str, set[str]] | None = None, children_known: bool = False) -> tuple[bool | None, str]:
+    """(verdict, reason).  True: the template interpreted from the writer is the reader's.  False (a contradiction) only when the two
+    templates are made of the same material - every reference of the writer's fields and every loop of the writer occur in the reader's
+    template, so that the role of each field is established - and the sequence of fields differs; or when a loop pairs by position two
+    dictionaries the reader pairs by key.  None: a field, loop or children statement is not one whose role is established."""
+    if got == want:
+        return True, ''
+    if OPEN in got:
+        return None, 'a statement on the list of children is not followed'
+    # pairing by position: for .. in zip(D.items(), E.values()) where the reader reads E[key of D]
+    for m in re.finditer(r'⟦for [^ ]+ in zip\(([^⟧:]*)\): ', got):
+        parts = [re.sub(r'\.(items|values|keys)\(\)$', '', x.strip()) for x in m.group(1).split(', ')]
+        if len(parts) == 2 and parts[0] != parts[1] and all(re.fullmatch(r'@\d+|self\.\w+', x) for x in parts):
+            def own_order(x: str, y: str) -> bool:
+                # x may list its keys in another order than y: it is another constructor parameter, or an attribute filled from one
+                if x.startswith('@'):
+                    return True
+                return any(r.startswith('@') and r.split('#')[0] != y for r in (attr_roles or {}).get(x[5:], set()))
+
+            for d, e in (parts, parts[::-1]):
+                if own_order(e, d) and re.search(r'⟦for [^ ]+ in ' + re.escape(d) + r'(?:\.items\(\))?: [^⟧]*' + re.escape(e) + r'\[\$', want):
+                    return False, f'{d} and {e} are paired by position; the reader pairs them by key ({e}[key of {d}]): the two dictionaries need not list their keys in the same order'
+
+    def loops_of(tpl: str) -> set:
+        return set(re.findall(r'⟦for ([^ ]+) in ([^:⟧]+): ', tpl))
+
+    def field_refs(tpl: str) -> set[str]:
+        out = set()
+        for k, r in _FIELD.findall(tpl):
+            if k == 'FMT':
+                out.add('FMT:' + r)
+            elif k == 'IDX':
+                out.add(r.split(':', 1)[1] if ':' in r else r)  # the table is established by the leaf-id rule; the owner is the reference
+            elif k != 'CLS':
+                out.add(r)
+        return out
+
+    g_refs, w_refs = field_refs(got), field_refs(want)
+    g_loops, w_loops = loops_of(got), loops_of(want)
+    # the list of children has an established role of its own (its content is the children template, decided separately)
+    new_refs = sorted(g_refs - w_refs - ({CHILDREN} if children_known else set()))
+    new_loops = sorted(f'for {v} in {it}' for v, it in g_loops - w_loops)
+    gg, gw = re.fullmatch(r'GENERIC\[(.*)\]', got), re.fullmatch(r'GENERIC\[(.*)\]', want)
+    if gg and gw:
+        # the generic record lists the children: the same children in another order is a contradiction, another set of children is not
+        # decided (a child may be added in a way the constructor interpreter does not follow)
+        gi, wi = gg.group(1).split(' ; '), gw.group(1).split(' ; ')
+        if sorted(gi) == sorted(wi):
+            return False, 'the same children in another order'
+        return None, 'the children are not the ones of the reader: how the list of children is built is not fully followed'
+    if gg or gw:
+        return None, 'one side writes the generic record, the other a record of its own'
+    if new_refs or new_loops:
+        return None, 'role of ' + ', '.join(new_refs + new_loops) + ' not established'
+    return False, 'same fields and loops as the reader, in another arrangement'
+
+
 #: obligations whose failure contradicts the property (rule, construct pattern, why); every other failure is 'not recognised'
 POSITIVE: list[tuple[str, str, str]] = [
-    ('C01.R1', r'^Expression\.__\w+__$', 'the class / operand order returned by an operator dunder is read off its return statements and compared with the Python data model'),
-    ('C01.R3', r':record$', 'the record template interpreted from get_signature (interpretation succeeded) is not the one the engine parses for this tag'),
-    ('C01.R4', r'\.get_signature$', 'an id written in the record belongs to a node whose signature is not emitted before it'),
+    ('C01.R1', r'^Expression\.__\w+__$', 'every return of the operator dunder (a delegation to another dunder followed) is the construction of an expression class whose arguments are self / the '
+     'operand, and the class or the order is not the one of the Python data model; anything else returned leaves the verdict open'),
+    ('C01.R3', r':record$', 'every field and loop of the record interpreted from get_signature occurs in the template the engine parses for this tag (roles established) and the sequence differs, '
+     'or two dictionaries the reader pairs by key are paired by position; a field / loop / children statement whose role is not established leaves the verdict open (_record_verdict)'),
+    ('C01.R4', r'\.get_signature$', 'an id written in the record belongs to an identified node (parameter, attribute, element of one) whose signature is not emitted before it; unidentified owners leave it open'),
     ('C01.R9', r':appearance-order$', 'a positional sequence follows the insertion order of a dictionary of parameters'),
     ('C01.R9', r'_betas\.expressions\[', 'a per-parameter vector is indexed by names of another kind / another order'),
     ('C01.R8', r'calculate_function_and_derivatives:the_cpp\.', 'an argument handed to the engine has another role than the slot the engine reads'),
-    ('C01.R6', r'^(Equal|NotEqual|LessOrEqual|GreaterOrEqual|Less|Greater|And|Or|bioMin|bioMax|logzero|PowerConstant)\.get_value$', 'truth table / case table obtained by interpreting the method over the finite abstraction of its operands'),
-    ('C01.R6', r':(unavailable|chosen-availability|denominator)$', 'LogLogit.get_value matched with holes: a constant return that is not a log-probability, a test or a term that is not the one of the logit formula'),
+    ('C01.R6', r'^(Equal|NotEqual|LessOrEqual|GreaterOrEqual|Less|Greater|And|Or|bioMin|bioMax|logzero|PowerConstant)\.get_value$', 'truth table / case table obtained by interpreting the method over the finite abstraction of its operands: '
+     'a case in which the interpreter folds the result to a definite value that is not the one of the table; a result it cannot fold leaves the verdict open (settle)'),
+    ('C01.R6', r':(unavailable|chosen-availability|denominator)$', 'LogLogit.get_value matched with holes: a constant return that is not a log-probability; an availability test that is inverted, reads another '
+     'alternative or the utility; the shift or the logarithm with the other sign.  Any other spelling leaves the verdict open'),
     ('C01.R5', r'^(class|enum|table|leaf):', 'leaf-id table: a class is tied to another enum constant / table / id attribute'),
 ]
 
@@ -582,57 +824,149 @@ def run(ctx: Ctx) -> None:
     E = prog.cls(BASE, 'Expression')
     # ---- R10
     n_w = 0
-    for c_ in [E] + prog.subclasses(E):
+    expr_classes = [E] + prog.subclasses(E)
+    WRITERS = ('set_id_manager', '__init__')
+
+    def writer_part(c_: ClassInfo, m_: FuncInfo, seen: frozenset = frozenset()) -> bool | None:
+        """a private method is part of set_id_manager / the constructor when every call of it in the package is `self.<name>(...)` written in
+        set_id_manager / __init__ of an expression class (or in another such private part).  True: it is; False: it is called from another
+        method (named in the message); None: nothing calls it, or a call is not followed"""
+        if not m_.name.startswith('_') or m_.name.startswith('__') or m_.name in seen:
+            return None
+        sites = prog.callers_of(m_.name)
+        if not sites:
+            return None
+        verdict: bool | None = True
+        for g_, call_ in sites:
+            recv_self = isinstance(call_.func, ast.Attribute) and unparse(call_.func.value) in ('self', 'super()')
+            if g_.cls is None or g_.cls not in expr_classes or not recv_self:
+                verdict = None  # a call on another object, or from outside the expression classes: not followed
+            elif g_.name in WRITERS:
+                continue
+            elif g_.name.startswith('_') and not g_.name.startswith('__'):
+                sub = writer_part(g_.cls, g_, seen | {m_.name})
+                if sub is False:
+                    return False
+                if sub is None:
+                    verdict = None
+            else:
+                return False  # reached from another public method of the node
+        return verdict
+
+    for c_ in expr_classes:
         for m_ in c_.methods.values():
+            if getattr(m_.node, '_verif_transparent', False):
+                continue  # a new helper whose calls were all expanded in place: its statements are examined where it is called
             for a_ in walk_no_nested(m_.node):
                 if isinstance(a_, ast.Assign) and any(unparse(t_) == 'self.id_manager' for t_ in a_.targets):
-                    okw = m_.name in ('set_id_manager', '__init__')
-                    n_w += okw
+                    okw: bool | None = m_.name in WRITERS
+                    if not okw:
+                        okw = writer_part(c_, m_)
+                        if okw is None and not (m_.name.startswith('_') and not m_.name.startswith('__')):
+                            okw = False
+                    n_w += bool(okw)
                     ctx.add('C01.R10', f'{c_.name}.{m_.name}:self.id_manager', okw, (m_.file, a_.lineno),
                             'the id manager is assigned by set_id_manager / the constructor' if okw else
-                            f'{c_.name}.{m_.name} stores `self.id_manager = {unparse(a_.value)}` directly: only this node changes manager, the elementary expressions below it keep the ids (elementaryIndex, betaId, variableId) they '
-                            'were given under the other manager, and a formula that shares them is evaluated with the ids of another numbering', unparse(a_), positive=True)
+                            (f'{c_.name}.{m_.name} stores `self.id_manager = {unparse(a_.value)}`: the calls of this private method are not all followed to set_id_manager / the constructor' if okw is None else
+                             f'{c_.name}.{m_.name} stores `self.id_manager = {unparse(a_.value)}` directly: only this node changes manager, the elementary expressions below it keep the ids (elementaryIndex, betaId, variableId) they '
+                             'were given under the other manager, and a formula that shares them is evaluated with the ids of another numbering'), unparse(a_), positive=okw is False)
     if n_w < 4:
         raise AnalysisError(f'C01.R10: only {n_w} assignments of self.id_manager in set_id_manager / __init__ found')
     # ---- R1
+    from ..pattern import has as _has
+
+    def ctor_roles(call: ast.Call, fnode: ast.AST) -> tuple | None:
+        """(class, [text of the argument given to each constructor parameter, in parameter order]) for the construction of an expression
+        class, keyword and positional arguments alike, locals resolved; None when the call is anything else"""
+        cls_ = next((c_ for c_ in expr_classes if c_.name == call_name(call) and isinstance(call.func, (ast.Name, ast.Attribute))), None)
+        init_ = cls_.resolve('__init__') if cls_ is not None else None
+        if init_ is None or any(isinstance(x, ast.Starred) for x in call.args) or any(k.arg is None for k in call.keywords):
+            return None
+        params_ = init_.positional_params()[1:]
+        slots: dict[str, ast.expr] = {}
+        for i_, x in enumerate(call.args):
+            if i_ >= len(params_):
+                return None
+            slots[params_[i_]] = x
+        for k in call.keywords:
+            if k.arg not in params_ or k.arg in slots:
+                return None
+            slots[k.arg] = k.value
+        out = []
+        for p_ in params_:
+            if p_ not in slots:
+                break
+            out.append(inline_locals(fnode, slots[p_]))
+        if len(out) != len(slots):
+            return None
+        return cls_.name, out
+
+    def dunder_facts(dunder: str, depth: int = 0) -> tuple[list, bool]:
+        """what an operator dunder of Expression returns: [(class, [argument texts]) | ('?', text)], in terms of `self` and the name of its
+        own second parameter; and whether its operand is checked first.  `return self.__other_dunder__(x)` is what that dunder returns."""
+        f_ = E.methods[dunder]
+        other_ = f_.positional_params()[1] if len(f_.positional_params()) > 1 else None
+        built_: list = []
+        delegated: list[bool] = []
+        for r_ in [n for n in walk_no_nested(f_.node) if isinstance(n, ast.Return)]:
+            v_ = inline_locals(f_.node, r_.value) if r_.value is not None else None
+            if isinstance(v_, ast.Call) and isinstance(v_.func, ast.Attribute) and unparse(v_.func.value) == 'self' and v_.func.attr in E.methods and v_.func.attr != dunder \
+                    and v_.func.attr in OPERATOR_TABLE and depth < 3 and not any(isinstance(x, ast.Starred) for x in v_.args) and all(k.arg for k in v_.keywords):
+                # `return self.__truediv__(other)`: what that dunder of the same class returns, its operand being the argument given here
+                tgt = E.methods[v_.func.attr]
+                tparams = tgt.positional_params()[1:]
+                given = [unparse(x) for x in v_.args] + [unparse(k.value) for k in v_.keywords if k.arg in tparams[len(v_.args):]]
+                if len(given) == len(tparams) == len(v_.args) + len(v_.keywords) and all(g_ in ('self', other_) for g_ in given):
+                    tb, tg = dunder_facts(v_.func.attr, depth + 1)
+                    ren = dict(zip(tparams, given))
+                    built_ += [b_ if b_[0] == '?' else (b_[0], [re.sub(r'(?<![\w.])([A-Za-z_]\w*)(?!\w)', lambda m_: ren.get(m_.group(1), m_.group(1)), x) for x in b_[1]]) for b_ in tb]
+                    delegated.append(tg)
+                    continue
+            rc = ctor_roles(v_, f_.node) if isinstance(v_, ast.Call) else None
+            built_.append(('?', unparse(r_.value) if r_.value is not None else 'None') if rc is None else (rc[0], [unparse(x) for x in rc[1]]))
+        if dunder == '__neg__':
+            guard_ = True
+        elif dunder == '__pow__':
+            guard_ = isinstance(f_.body[-1], ast.Raise) and all(
+                isinstance(st, (ast.If, ast.ImportFrom, ast.Raise, ast.Expr)) or (isinstance(st, ast.Assign) and isinstance(st.value, (ast.JoinedStr, ast.Constant))) for st in f_.body
+            )
+        else:
+            guard_ = _has(f_.node, f'if not (is_numeric({other_}) or isinstance({other_}, Expression)):\n    ___\n    raise __EXC')
+        if delegated and all(delegated) and all(isinstance(st, (ast.Return, ast.ImportFrom)) or (isinstance(st, ast.Assign) and isinstance(st.targets[0], ast.Name)) for st in f_.body):
+            guard_ = True  # nothing but the call of a dunder that checks the operand
+        return built_, bool(guard_)
+
     n1 = 0
     for dunder, (cname, reflected) in OPERATOR_TABLE.items():
         f = E.methods.get(dunder)
         if f is None:
             raise AnalysisError(f'C01.R1: Expression.{dunder} not found')
-        rets = [n for n in walk_no_nested(f.node) if isinstance(n, ast.Return)]
         other = f.positional_params()[1] if len(f.positional_params()) > 1 else None
-        built = []
-        for r in rets:
-            v = r.value
-            if not isinstance(v, ast.Call):
-                built.append(('?', unparse(v)))
-                continue
-            args = [unparse(a) for a in v.args] + [f'{k.arg}={unparse(k.value)}' for k in v.keywords]
-            built.append((call_name(v), args))
+        built, guard_ok = dunder_facts(dunder)
         n1 += 1
+        roles_ = {'self', other}
+        # every return is the construction of an expression class whose arguments are self / the other operand: the roles are established
+        understood = bool(built) and all(b[0] != '?' and all(x in roles_ for x in b[1]) for b in built)
         if dunder == '__neg__':
             ok = built == [('UnaryMinus', ['self'])]
         elif dunder == '__pow__':
-            # numeric exponent -> PowerConstant(child=self, exponent=float(..)); expression -> Power(self, other)
-            ok = ('Power', ['self', other]) in built and all(
-                b == ('Power', ['self', other]) or (b[0] == 'PowerConstant' and (b[1][0] in ('self', 'child=self')) and other in ' '.join(b[1][1:])) for b in built
-            )
+            # numeric exponent -> PowerConstant(child=self, exponent=<the number given>); expression -> Power(self, other)
+            def pc(b):
+                return b[0] == 'PowerConstant' and len(b[1]) == 2 and b[1][0] == 'self' and re.search(rf'(?<![\w.]){re.escape(other)}(?!\w)', b[1][1]) is not None
+
+            def wrong(b):  # another class, or the operands in other slots: roles established and not those of the data model
+                return b[0] != '?' and all(x in roles_ for x in b[1]) if b[0] != 'PowerConstant' else len(b[1]) == 2 and b[1][0] in roles_ and b[1][0] != 'self'
+
+            ok = ('Power', ['self', other]) in built and all(b == ('Power', ['self', other]) or pc(b) for b in built)
+            understood = bool(built) and all(b == ('Power', ['self', other]) or pc(b) or wrong(b) for b in built)
         else:
             want = [other, 'self'] if reflected else ['self', other]
             ok = built == [(cname, want)]
-        ctx.add('C01.R1', f'Expression.{dunder}', ok, f,
-                f'{dunder} builds ' + ', '.join(f'{b[0]}({", ".join(b[1]) if isinstance(b[1], list) else b[1]})' for b in built) + ('' if ok else f'; the data model requires {cname}({"other, self" if reflected else "self, other"})'),
+        ctx.add('C01.R1', f'Expression.{dunder}', ok if (ok or understood) else None, f,
+                f'{dunder} builds ' + ', '.join(f'{b[0]}({", ".join(b[1]) if isinstance(b[1], list) else b[1]})' for b in built) + ('' if ok else f'; the data model requires {cname}({"other, self" if reflected else "self, other"})')
+                + ('' if ok or understood else ' (what is returned is not the construction of an expression class from self and the operand: not followed)'),
                 detail=str(built))
-        # the class resolves to the class of that name in the expressions package
         if dunder != '__neg__':
-            from ..pattern import has as _has
-
-            guard_ok = _has(f.node, f'if not (is_numeric({other}) or isinstance({other}, Expression)):\n    ___\n    raise __EXC')
-            if dunder == '__pow__':
-                guard_ok = isinstance(f.body[-1], ast.Raise) and all(
-                    isinstance(st, (ast.If, ast.ImportFrom, ast.Raise, ast.Expr)) or (isinstance(st, ast.Assign) and isinstance(st.value, (ast.JoinedStr, ast.Constant))) for st in f.body
-                )
             ctx.add('C01.R1', f'Expression.{dunder}:guard', guard_ok, f, 'operand is checked before the node is built' if guard_ok else f'{dunder} builds a node without checking that the operand is numeric or an Expression', 'guard')
     ctx.floor('C01.R1', 40)
 
@@ -668,22 +1002,38 @@ def run(ctx: Ctx) -> None:
             refs_ok = True
             own_last = True
         else:
-            t = RecordTemplate(prog, gs, ar.attr_map(), id_attrs)
+            # the first children, those added one by one: self.children[k] in the record is the k-th of them
+            first_children = []
+            for it_ in ar.children:
+                if it_[0] != 'item':
+                    break
+                first_children.append(render_items([it_], ar.attr_map()))
+            t = RecordTemplate(prog, gs, ar.attr_map(), id_attrs, children=first_children, tuple_fields=_tuple_fields(prog, c))
             got = t.render()
             own_last = t.own_last
             # R4 coverage on the level of the base attribute / parameter
             def base(ref: str) -> str:
                 m = re.match(r'(@\d+(?:#\d+)?|self\.\w+|\$\d+)', ref)
                 return m.group(1) if m else ref
+
+            def resolved(x: str) -> bool:
+                return re.fullmatch(r'@\d+(?:#\d+)?|self\.\w+', x) is not None or x == CHILDREN
+
             covered = set()
+            emitted_open = []  # emitted signatures whose owner is not resolved to a parameter / attribute
             for e in t.emitted:
                 m = re.match(r'⟦(.*)⟧(.*)', e)
                 if m:
                     covered.add(base(m.group(1)) + ':' + m.group(2) if m.group(1) != CHILDREN else CHILDREN)
+                    if not resolved(base(m.group(1))):
+                        emitted_open.append(e)
                 else:
                     covered.add(base(e))
+                    if not resolved(base(e)):
+                        emitted_open.append(e)
             child_bases = {base(x) for x in re.findall(r'@\d+(?:#\d+)?|self\.\w+', ar.children_template())}
             missing = []
+            unresolved = []
             # loop-variable refs are attributed to the iterated container
             txt = got
             loops = re.findall(r'⟦for ([^ ]+) in ([^:]+): ([^⟧]*)⟧', txt)
@@ -698,22 +1048,32 @@ def run(ctx: Ctx) -> None:
                     srcs = {src}
                     if src.startswith('self.') and src not in child_bases and ar.sources.get(src[5:]):
                         srcs = set(ar.sources[src[5:]])
-                    okc = (CHILDREN in covered and srcs <= child_bases) or any(cv.startswith(src + ':') for cv in covered)
+                    okc = (CHILDREN in covered and (srcs <= child_bases or src == CHILDREN)) or any(cv.startswith(src + ':') for cv in covered)
+                    known = resolved(src)
                 else:
                     okc = b in covered or (CHILDREN in covered and b in child_bases)
+                    known = resolved(b)
                 if not okc:
-                    missing.append(ref)
-            refs_ok = not missing
-            ctx.add('C01.R4', f'{c.name}.get_signature', refs_ok and own_last, gs,
+                    (missing if known else unresolved).append(ref)
+            # an id is reported as never emitted only when the node it belongs to is identified (a parameter, an attribute, an element of one of
+            # them) and every emitted signature is attributed as well; otherwise the coverage is not decided
+            undecided = bool(unresolved or (missing and (emitted_open or OPEN in ar.children_template())))
+            refs_ok = not missing and not unresolved
+            ctx.add('C01.R4', f'{c.name}.get_signature', None if (undecided and own_last) else (refs_ok and own_last), gs,
                     'children referenced in the record are emitted before it; own record last' if refs_ok and own_last
-                    else (f'ids referenced but never emitted before the record: {missing}' if missing else 'own record is not the last element of the returned list'),
-                    detail=str(missing) + str(own_last))
+                    else (f'ids whose node is not identified, emission not decided: {unresolved + missing}' if undecided and own_last else
+                          f'ids referenced but never emitted before the record: {missing}' if missing else 'own record is not the last element of the returned list'),
+                    detail=str(missing + unresolved) + str(own_last))
         want = EXPECTED[c.name]
-        ok = got == want
-        # a field whose role was not established (it is rendered as a plain value the reader does not have) leaves the verdict open
-        untyped = set(re.findall(r'\{VAL:[^}]*\}', got)) - set(re.findall(r'\{VAL:[^}]*\}', want))
-        ctx.add('C01.R3', f'{c.name}:record', ok if (ok or not untyped) else None, gs if gs is not generic else c,
-                f'<{c.name}> record: {got}' + ('' if ok else f' ; the reader parses: {want}' + (f' (role of {sorted(untyped)} not established)' if untyped else '')), detail=got)
+        if gs is not generic and got == GENERIC and t.emits_children and t.own_last:
+            got = f'GENERIC[{ar.children_template()}]'  # an own get_signature that writes the generic record
+        # the list of children of a class whose children are exactly the elements of one parameter is that parameter
+        only = re.fullmatch(r'⟦for \$0 in (@\d+): \$0⟧|\*(@\d+)', ar.children_template())
+        if only and gs is not generic:
+            got = re.sub(rf'(?<![\w.]){CHILDREN}(?![\w\[])', only.group(1) or only.group(2), got)
+        ok, why = _record_verdict(got, want, ar.roles, children_known=OPEN not in ar.children_template())
+        ctx.add('C01.R3', f'{c.name}:record', ok, gs if gs is not generic else c,
+                f'<{c.name}> record: {got}' + ('' if ok else f' ; the reader parses: {want}' + (f' ({why})' if why else '')), detail=got, positive=ok is False)
         # R2: conversion of every ExpressionOrNumeric parameter
         init = c.resolve('__init__')
         if init is not None:
